@@ -1,6 +1,6 @@
 (* C11 — Non-revocation proofs are sound and tied to the credential. *)
 From Coq Require Import ZArith List.
-From Gabi Require Import ModArith GoSem ParamsDef ZkProof Keys NonRev Core CoreTotal CoreSound NonRevProver NonRevComplete.
+From Gabi Require Import ModArith GoSem ParamsDef ZkProof Keys NonRev Core CoreTotal CoreSound NonRevProver NonRevComplete SignedPow ZkComplete ZkExtract.
 From GabiGen Require Import Consts.
 Import ListNotations.
 Open Scope Z_scope.
@@ -60,3 +60,20 @@ Theorem nonrev_commitments_are_units :
   proofD_contrib pk p choice = Ok (l, p') -> pd_nr p = Some nr ->
   exists cr cu, nr_Cr nr = Some cr /\ nr_Cu nr = Some cu /\ Z.gcd cr (pk_N pk) = 1 /\ Z.gcd cu (pk_N pk) = 1.
 Proof. exact nonrev_commitments_are_units_lem. Qed.
+
+(* The algebraic half of the knowledge extractor, for every statement of the proof system (in particular the three
+   relations of the non-revocation proof and the relations of a range proof): two accepted transcripts with the
+   same commitment T and challenges c > c' yield exponents (the response differences, scaled by the public powers)
+   that represent lhs^(c - c') over the bases. Whether such a representation can exist for a false statement is the
+   strong-RSA assumption and stays outside the model. *)
+Theorem two_transcripts_give_representation :
+  forall strict n bases res res' c c' s lhs linv ts ts' T,
+  1 < n -> 0 <= c' <= c ->
+  lhs_fold strict n bases (q_lhs s) 0 1 = Ok lhs -> go_modinverse lhs n = Some linv ->
+  resolve_q n bases res (q_rhs s) = Some ts -> resolve_q n bases res' (q_rhs s) = Some ts' ->
+  qr_from_proof_gen strict n bases res c s = Ok T ->
+  qr_from_proof_gen strict n bases res' c' s = Ok T ->
+  exists terms : list sterm,
+    map (fun t => (s_b t, s_bi t, s_es t)) terms = ts /\ map (fun t => (s_b t, s_bi t, s_er t)) terms = ts' /\
+    sprod n (fun t => s_es t - s_er t) terms = powm n lhs (c - c').
+Proof. exact qr_two_transcripts_lem. Qed.
